@@ -1,5 +1,10 @@
 """C15 — a ModelProto and an IR model are treated alike."""
-MODULES = ["contracts.c15_wrappers"]
+# the fallback path of convert_version (initializer payloads must survive it) has its contract in c10_version
+MODULES = ["contracts.c15_wrappers", "contracts.c10_version:requires_inline", "contracts.c10_version:call_onnx_api"]
+
+
+def INCLUDE(name):
+    return name.startswith("C15.") or name.startswith("C10.pass.fallback") or name.startswith("C10.c_api")
 
 CONVERT = '''
 import sys
@@ -83,7 +88,35 @@ sys.exit(1 if bad else 0)
 """
 
 
+REPLACE_FUNCTIONS = '''
+import sys
+import onnx
+from onnx import helper, TensorProto
+from onnxscript.utils import replace
+vi = helper.make_tensor_value_info
+g = helper.make_graph([helper.make_node("CustomOp1", ["x"], ["t"], domain="local"), helper.make_node("OtherOp", ["t"], ["y"], domain="local")], "g",
+                      [vi("x", TensorProto.FLOAT, [2])], [vi("y", TensorProto.FLOAT, [2])])
+m = helper.make_model(g, opset_imports=[helper.make_opsetid("", 18), helper.make_opsetid("local", 2)], ir_version=9)
+f = helper.make_function("local", "CustomOp1", ["a"], ["b"], [helper.make_node("Relu", ["a"], ["b"])], opset_imports=[helper.make_opsetid("", 18)])
+before = m.SerializeToString()
+r = replace.replace_functions(m, [f])
+bad = 0
+if m.SerializeToString() != before:
+    print("replace_functions modified its argument"); bad = 1
+doms = {o.domain for o in r.opset_import}
+used = {n.domain for n in r.graph.node}
+if not used <= doms:
+    print("nodes of the result use domains", sorted(used), "but the opset imports are", sorted(doms)); bad = 1
+sys.exit(bad)
+'''
+
+
 def replay(ob):
+    if "replace_functions" in ob["name"]:
+        return REPLACE_FUNCTIONS
+    if ob["name"].startswith("C10."):
+        from props import C10
+        return C10.replay(ob)
     if "convert_version" in ob["name"]:
         return CONVERT
     for api in ("optimizer.optimize", "optimizer.fold_constants", "optimizer.remove_unused_nodes", "optimizer.remove_unused_functions"):
